@@ -219,6 +219,45 @@ def move_obstacles(state, action, rng):
     ensures_native('multiset-preserved', lambda: ms(state.grid, state.agent.grid_object) == ms(g0, s0.agent.grid_object))
     ensures_native('no-obstacle-lost-or-duplicated', lambda: count_cells(state.grid, lambda o: isinstance(o, MovingObstacle))
                    == count_cells(g0, lambda o: isinstance(o, MovingObstacle)))
+    ensures_native('a-legal-outcome-of-the-turn-by-turn-rule', lambda: obstacle_layout(state.grid) in legal_obstacle_layouts(g0))
+
+
+def obstacle_layout(grid):
+    return frozenset((p.y, p.x) for p in grid.area.positions() if isinstance(grid[p], MovingObstacle))
+
+
+def legal_obstacle_layouts(g0, max_obstacles=4):
+    """Reference model written from the statement (native only, bounded stand-in): obstacles take their turns one
+    after the other; at its turn an obstacle moves to one of its four neighbours that is floor *then*, and stays only
+    if it has none.  The statement fixes no order of turns, so every order is admitted.  Returns the set of possible
+    final obstacle layouts (a set containing every layout when there are more than `max_obstacles` obstacles)."""
+    import itertools
+    h, w = g0.shape.height, g0.shape.width
+    floor0 = {(p.y, p.x) for p in g0.area.positions() if isinstance(g0[p], Floor)}
+    obst0 = [(p.y, p.x) for p in g0.area.positions() if isinstance(g0[p], MovingObstacle)]
+
+    class Everything:
+        def __contains__(self, x):
+            return True
+    if len(obst0) > max_obstacles:
+        return Everything()
+    out = set()
+    for order in itertools.permutations(range(len(obst0))):
+        frontier = {(frozenset(floor0), tuple(obst0))}
+        for k in order:
+            nxt = set()
+            for floor, obst in frontier:
+                y, x = obst[k]
+                free = [(y + dy, x + dx) for dy, dx in ((-1, 0), (1, 0), (0, -1), (0, 1)) if (y + dy, x + dx) in floor]
+                if not free:
+                    nxt.add((floor, obst))
+                for q in free:
+                    o2 = list(obst)
+                    o2[k] = q
+                    nxt.add(((floor - {q}) | {(y, x)}, tuple(o2)))
+            frontier = nxt
+        out |= {frozenset(obst) for _, obst in frontier}
+    return out
 
 
 # ------------------------------------------------------------------ chain / transition_with_copy
